@@ -19,6 +19,17 @@ type (
 func NewCond(l Locker) *Cond   { return sync.NewCond(l) }
 func OnceFunc(f func()) func() { return sync.OnceFunc(f) }
 
+// SingleGoroutine: outside a scheduled execution the harnesses drive the library from one goroutine. A lock
+// that is already held can then only be held by the caller itself: blocking on it would hang the worker for
+// good, so it panics instead (the harness reports the call as one that does not return).
+var SingleGoroutine = true
+
+func selfDeadlock(what string) {
+	if SingleGoroutine {
+		panic("self-deadlock: " + what + " of a lock the calling goroutine already holds (the call would never return)")
+	}
+}
+
 // Mutex yields before locking and blocks cooperatively when contended.
 type Mutex struct{ mu sync.Mutex }
 
@@ -26,6 +37,7 @@ func (m *Mutex) Lock() {
 	sched.Point("mutex.lock")
 	for !m.mu.TryLock() {
 		if !sched.Active() {
+			selfDeadlock("Mutex.Lock")
 			m.mu.Lock()
 			return
 		}
@@ -41,6 +53,7 @@ func (m *RWMutex) Lock() {
 	sched.Point("rwmutex.lock")
 	for !m.mu.TryLock() {
 		if !sched.Active() {
+			selfDeadlock("RWMutex.Lock")
 			m.mu.Lock()
 			return
 		}
@@ -52,6 +65,7 @@ func (m *RWMutex) RLock() {
 	sched.Point("rwmutex.rlock")
 	for !m.mu.TryRLock() {
 		if !sched.Active() {
+			selfDeadlock("RWMutex.RLock")
 			m.mu.RLock()
 			return
 		}
